@@ -56,6 +56,37 @@ Theorem c11_refused_during_and_after_drain : forall l ops,
 Proof. exact refused_during_and_after_drain. Qed.
 Print Assumptions c11_refused_during_and_after_drain.
 
+(* ---- a server is a LIST of listeners (ingress, egress, ...) ---- *)
+(* each shutdown goroutine of GracefulStopListeners works on its OWN listener (read from the source on this run) *)
+Theorem c11_shutdown_goroutine_has_own_listener : shutdown_goroutine_has_own_listener = true.
+Proof. exact (eq_refl true). Qed.
+
+(* no listener is skipped, for every list: listener i ends up as l_shutdown of itself - it refuses connects and its
+   connections have got the shutdown event (OnShutdown count + 1) *)
+Theorem c11_no_listener_skipped : forall ls i l,
+  nth_error ls i = Some l -> l_wf l -> l_bind l = true ->
+  exists l', nth_error (srv_shutdown shutdown_goroutine_has_own_listener ls) i = Some l' /\ l' = l_shutdown false l /\
+             l_connect l' = CRefused /\ l_drains l' = S (l_drains l).
+Proof. exact no_listener_skipped. Qed.
+Print Assumptions c11_no_listener_skipped.
+
+(* and GracefulStopListeners returns only after the in-flight requests of EVERY listener of the list *)
+Theorem c11_inflight_complete_all_listeners : forall rss pt max i rs r t,
+  increasing pt -> nth_error rss i = Some rs -> In r rs ->
+  r_active r (pt 0) = true -> r_done r - pt 0 <= max ->
+  srv_return shutdown_goroutine_has_own_listener rss pt max = Some t ->
+  r_done r <= t.
+Proof. exact inflight_complete_all_listeners. Qed.
+Print Assumptions c11_inflight_complete_all_listeners.
+
+(* with the range variable shared by the goroutines (go < 1.22) only the last listener is shut down and waited for *)
+Example c11_shared_loop_variable_refuted :
+  let l := l_run (l_init true false) [OpStart false] in
+  map l_connect (srv_shutdown false [l; l; l]) = [CAccepted; CAccepted; CRefused] /\
+  srv_return false [[mkR 0 10 200 30]; []] (fun i => 100 + 10 * i) 1000 = Some 100 /\
+  srv_return true [[mkR 0 10 200 30]; []] (fun i => 100 + 10 * i) 1000 = Some 240.
+Proof. vm_compute. repeat split; reflexivity. Qed.
+
 (* hot upgrade: after Shutdown while Upgrading the old process accepts nothing (until a Start resumes it), the listening
    socket keeps its identity and is not closed by it *)
 Theorem c11_no_new_after_stop_upgrade : forall l ops,
